@@ -184,6 +184,18 @@ def r2_r3(ctx, facts):
         # the response local flows through the await; accept dominance + slice containing the send's future
         ok = any(b.dominates(send.bb, h.bb) for h in hs) and (tag == "resend" or any(not b.dominates(s2.bb, h.bb) for h in hs))
         r3.instance(tag + ":new-metadata-id-recorded", ok, "each EXECUTE response must be passed to handle_result_metadata_new_id", send.span, nontrivial=False)
+    # ... and what it is handed is the answer to the LATEST EXECUTE sent on that path, not an earlier one
+    for h in hs:
+        latest = s2 if b.dominates(s2.bb, h.bb) else (s1 if b.dominates(s1.bb, h.bb) else None)
+        if latest is None:
+            r3.fail("metadata-id-from-latest-response", "handle_result_metadata_new_id is called where no EXECUTE has been sent yet", h.span)
+            continue
+        locs = backward_slice(b, h.args[1])[0]
+        other = s1 if latest is s2 else s2
+        ok = latest.dest[0] in locs and not (other.dest[0] in locs and latest is s2 and latest.dest[0] not in locs)
+        r3.instance("metadata-id-from-latest-response:" + ("resend" if latest is s2 else "first"), ok,
+                    "handle_result_metadata_new_id is handed a response that is not the answer to the EXECUTE just sent on this path (after the re-sent EXECUTE it must look at the NEW response): "
+                    "a metadata id announced with the re-sent EXECUTE's result is never stored, and the next execution presents the stale id", h.span)
     return b
 
 
